@@ -111,7 +111,7 @@ PROPS = {
     "C07": dict(kind="v1hist", quick_n=1500, thorough_n=24000,
                 profile=Profile(p_reopen=0.35, p_reopen_old=0.4, fasts=[True, True, False], check_all_versions=0.5,
                                 iters=0.6, meta_reads=["getv", "getv", "latest"], meta_per_version=(1, 3),
-                                p_loadow=0.12, p_delfrom=0.08, p_hash_read=0.0),
+                                p_loadow=0.12, p_delfrom=0.08, p_hash_read=0.0, ixdump=0.5),
                 title="fast index coherence"),
     "C09": dict(kind="v1hist", quick_n=1500, thorough_n=24000,
                 profile=Profile(p_huge=0.006, p_loadow=0.3, p_delfrom=0.1, p_rollback=0.3, p_reopen=0.2, check_all_versions=0.5,
